@@ -792,6 +792,23 @@ def fold_module_constants(fn, world, modname):
                             e.operand, ast.Constant) and type(
                                 e.operand.value) is int:
                     v = e
+                elif isinstance(e, ast.Call) and isinstance(
+                        e.func, ast.Name) and e.func.id == "range" and \
+                        not e.keywords and 1 <= len(e.args) <= 2:
+                    # `_ALL = range(_COUNT)`: a range of module constants
+                    cache[name] = None       # (no recursion through itself)
+                    args = []
+                    for a in e.args:
+                        if isinstance(a, ast.Name):
+                            a = const_of(a.id)
+                        if not (isinstance(a, ast.Constant) and type(
+                                a.value) is int):
+                            args = None
+                            break
+                        args.append(a)
+                    if args is not None:
+                        v = ast.Call(ast.Name("range", ast.Load()),
+                                     [acopy(a) for a in args], [])
             cache[name] = v
         return cache[name]
 
